@@ -39,6 +39,7 @@ class ForeignMonitor:
         self.managed = _managed(w, d, prog)
         self.pre = w.fs.snapshot(w.root)
         self.prev_created = set(d.state.created_dirs) if w.ref.kind(w.cache) == FILE else set()
+        self.prev_outputs = set(d.state.outputs) if w.ref.kind(w.cache) == FILE else set()
         self.log = []
         w.env.log = self.log
 
@@ -51,6 +52,14 @@ class ForeignMonitor:
             q = post.get(p)
             if s[0] == 'F':
                 if p in self.managed:
+                    if what == 'build-raised' and p != w.cache and p not in self.prev_outputs:
+                        # a foreign file at a target path, overwritten by a build that was rolled back: it is back
+                        if q is None or q[0] != 'F':
+                            eng.check('C03.overwritten-foreign-file-not-restored', False, self.sig + (what, _role(w, p)),
+                                      info={'path': w.rel(p), 'after': q and q[0]})
+                        else:
+                            conds.append(L.eq(s[2], q[2]))
+                            conds.append(L.eq(s[3], q[3]))
                     continue
                 if q is None or q[0] != 'F':
                     eng.check('C03.foreign-file-gone', False, self.sig + (what, _role(w, p)),
@@ -120,7 +129,10 @@ def run_history(eng, fam, P, prop):
                 nb += 1
                 crash = pick_crash(eng, prog) if step == 'F' else None
                 impl, ref = d.build(prog, crash=crash)
-                d.check_same(prop + '.build', sig)
+                if mon is not None:
+                    mon.finish('build-ok' if impl[0] == 'ok' else 'build-raised')
+                    mon = None
+                d.guard_same()
                 desc.append('%s->%s' % (step, impl[0]))
                 if impl[0] == 'exc':
                     eng.witness('build-raised')
@@ -138,8 +150,15 @@ def run_history(eng, fam, P, prop):
                 had_cache = w.fs.kind(w.cache) != ABSENT
                 before = w.fs.snapshot(w.root)
                 impl, _ = d.clean()
-                eng.check(prop + '.clean-ok', impl[0] == 'ok', sig, info={'exc': repr(impl[1])})
-                a, b = d.check_tree(prop + '.clean', sig)
+                if mon is not None:
+                    mon.finish('clean')
+                    mon = None
+                if prop == 'C12':
+                    eng.check(prop + '.clean-ok', impl[0] == 'ok', sig, info={'exc': repr(impl[1])})
+                    a, b = d.check_tree(prop + '.clean', sig)
+                elif impl[0] != 'ok' or not d.trees_equal():
+                    eng.note('guard:diverged-from-reference-in-clean')
+                    return
                 eng.witness('clean-with-cache' if had_cache else 'clean-without-cache')
                 if prop == 'C12':
                     eng.check('C12.cache-file-removed', w.fs.kind(w.cache) == ABSENT, sig)
@@ -155,8 +174,6 @@ def run_history(eng, fam, P, prop):
                               all(t1[p][:2] == t2[p][:2] for p in t1), sig)
                 cleaned_at = si
                 desc.append('CL')
-            if mon is not None:
-                mon.finish('clean' if step == 'C' else ('build-ok' if d.last[0][0] == 'ok' else 'build-raised'))
         eng.sample({'family': fam, 'program': eng.path_info['program'], 'history': desc})
     finally:
         w.close()
